@@ -56,4 +56,10 @@ TEXT = {
                 design_ref="DESIGN.md section 6 C19", note="64-bit integer Park-Miller and the RFC expression evaluated in the harness; 128-bit exact floor where s'*maxv < 2^53", technique="exhaustive state enumeration against exact integer arithmetic"),
     "C20": dict(level="exploration: complete for T, B up to 1536 (4096 thorough) plus seeded boundary-biased sampling of the full 32-bit range, against RFC 5052 in 64-bit integer arithmetic",
                 design_ref="DESIGN.md section 6 C20", note="blocking_struct.c compiled by TU inclusion (printf compiled out)", technique="exhaustive small-range enumeration plus seeded random sampling against integer RFC 5052 arithmetic"),
+    "C16": dict(level="exploration, exhaustive over the small code family: every (k, r) in 0..17 x 0..12 is offered; for each accepted pair the code is read off the encoder and must be a d x l product code, the encoder must satisfy every check on generated payloads, and the decoder is run on every one of the 2^n received subsets (thorough; quick: complete for n <= 13, 5000 seeded patterns for larger codes) through both APIs with finish, plus orders and release points, against exact GF(2) determinability",
+                design_ref="DESIGN.md section 6 C16", note="oracle equations are the ones observed from the library's own encoder after passing the structure predicate; allocation accounting via sanitizer hooks", technique="exhaustive pattern enumeration (history interpreter) with structure predicate and GF(2) determinability oracle"),
+    "C17": dict(level="exploration: generated operation sequences over a pool of sparse matrices with a set-of-pairs model; every live matrix is fully traversed (rows, columns, links, find) after every operation; freed memory via AddressSanitizer, completeness of free via allocation hooks",
+                design_ref="DESIGN.md section 6 C17", note="in-range arguments only; _opt copies and copy_filled_matrix into fresh destinations", technique="stateful model-based property testing (rapidcheck choice stream, set model)"),
+    "C18": dict(level="exploration: generated operation sequences over dense matrices with a bit-matrix model compared cell by cell after every operation; solver on constructed systems of known rank with symbol right-hand sides; popcount helpers over all 16-bit patterns in every position",
+                design_ref="DESIGN.md section 6 C18", note="solver called with non-NULL right-hand sides and a caller-built control block; rank decided by the harness's own elimination", technique="stateful model-based property testing (rapidcheck) plus differential solver test against own GF(2) elimination"),
 }
